@@ -210,7 +210,10 @@ class Gen:
         elif x < 0.95:
             v = -r.randint(1, n + 2)
         else:
-            v = r.choice([n + 1, n + 5, -n - 1, 10 ** 6, -10 ** 6]) if allow_out else n
+            far = [n + 1, n + 5, -n - 1, 10 ** 6, -10 ** 6]
+            if self.oracle.prop == 'C09':
+                far = [n + 1, n + 5, -n - 1, 10 ** 30, -10 ** 30]   # beyond the machine word as well
+            v = r.choice(far) if allow_out else n
         if not allow_out:
             v = max(-n, min(n, v))
         elif r.random() < 0.3 and v is not None and 0 < v <= n:
